@@ -169,13 +169,16 @@ STEP_OPS = [
 ]
 
 
-def steps(tier, ops=None, with_limit=False, tag=""):
+def steps(tier, ops=None, with_limit=False, tag="", pick=None):
+    """pick: optional set of (name, m) pairs to keep in the quick tier (everything is kept in thorough)"""
     o = []
     for name, root, qm, tm, defs in STEP_OPS:
         if ops and name not in ops:
             continue
         for n in lens(tier, (9,), (6, 8, 10, 12)):
             for m in lens(tier, qm, tm):
+                if tier == Q and pick is not None and (name, m) not in pick:
+                    continue
                 d = {"N": n, "M": m, "BN": 15, "KERNEL": "F_" + root}
                 d.update(defs)
                 stubs = list(STR_STUBS)
@@ -217,13 +220,52 @@ def prop_C18(tier):
     return xcfg(tier) + ipv4_kernels(tier, "avx512", "_avx512")
 
 
+def inv_lemma(tier):
+    return [Obl(f"inv_lemma_n{n}", "inv_lemma.c", [], defs={"N": n, "BN": 15}, unwind=17, mem_gb=6,
+                timeout=(300 if tier == Q else 1800), no_heap=False, witness=(n >= 6)) for n in lens(tier, (7, 12, 15), range(2, 16))]
+
+
+# quick-tier selections (each is decided in < ~4 min; the heavier setters are thorough-tier)
+PICK_C07 = {("clear_port", 0), ("clear_search", 0), ("clear_hash", 0), ("set_port", 2), ("set_username", 1)}
+PICK_C03 = {("set_username", 0), ("set_username", 1), ("set_password", 1), ("set_port", 0), ("set_port", 2)}
+PICK_C09 = {("set_username", 1), ("set_password", 1), ("set_port", 2)}
+PICK_C19 = {("set_port", 2), ("set_password", 1), ("clear_port", 0)}
+
+
 def prop_C07(tier):
-    return steps(tier)
+    return inv_lemma(tier) + steps(tier, pick=PICK_C07)
+
+
+def prop_C03(tier):
+    return steps(tier, ops=("set_username", "set_password", "set_port", "set_search", "set_hash", "set_pathname", "set_protocol"), pick=PICK_C03)
+
+
+def prop_C09(tier):
+    return steps(tier, ops=("set_username", "set_password", "set_port", "set_search", "set_hash", "set_pathname", "set_protocol"),
+                 with_limit=True, tag="_limit", pick=PICK_C09)
+
+
+def prop_C19(tier):
+    return inv_lemma(tier) + steps(tier, pick=PICK_C19)
+
+
+def prop_C05(tier):
+    return inv_lemma(tier) + pct_encode(tier)[:6] + steps(tier, pick={("set_username", 1), ("clear_hash", 0)})
+
+
+def prop_C02(tier):
+    """memory safety / no-throw / termination: CBMC's pointer, bounds, shift, division and overflow instrumentation, the
+    'noreturn reached' assertions and the unwinding assertions of these obligations (exact-size input objects)"""
+    sc = [o for o in scanners(tier) if any(f"_n{k}" == o.name[o.name.rfind("_n"):] for k in (15, 16, 17, 31, 32, 33)) or tier != Q]
+    return sc + pct_decode(tier) + [o for o in ipv4_kernels(tier) if "fast" in o.name or "number" in o.name] + steps(tier, pick={("clear_port", 0), ("set_port", 2)})
 
 
 def prop_C01(tier):
     return scanners(tier)
 
+
+# properties whose step obligations rest on INV: the native base case (parser results satisfy INV) is run with them
+INV_BASE_CASE = ("C07", "C19", "C03", "C09", "C05")
 
 COMMON_ASSUMPTIONS = [
     "clang-14 -O1 IR of /repo's src/ada.cpp (single translation unit, -fno-exceptions, -fno-access-control) is the code under test; "
